@@ -222,23 +222,54 @@ def tr_tags(tr) -> List[str]:
 D1, D2, D3, D4 = 'D1', 'D2', 'D3', 'D4'
 IO_BUFFER = 8192  # D4 holds as long as the buffered parts are smaller than the file object's buffer
 
+Write = Tuple[str, bool]  # (text, direct): direct = written by a program through the file descriptor
 
-def spool_bytes(writes: Sequence[Tuple[str, bool]], buff: int) -> bytes:
-    """D3: the bytes in the spooled file after the given sequence of writes (text, direct); direct = the text is
-    written by a program through the file descriptor (which turns the spool into a file on disk first)."""
+
+def _d4_order(writes: Sequence[Write]) -> Optional[str]:
+    """D4: what ends up in a file when the direct writes overtake the buffered ones (None: same as proper order,
+    or the buffered text does not fit the file object's buffer)."""
+    directs = ''.join(t for t, d in writes if d)
+    others = ''.join(t for t, d in writes if not d)
+    if directs == '' or others == '' or len(others.encode('utf-8')) > IO_BUFFER:
+        return None
+    text = directs + others
+    return None if text == ''.join(t for t, _ in writes) else text
+
+
+def file_results(writes: Sequence[Write]) -> List[Tuple[bytes, FrozenSet[str]]]:
+    """The bytes of a plain file that the parts are written to one after the other, per defect assumption."""
+    out = [(''.join(t for t, _ in writes).encode('utf-8'), _NONE)]
+    t4 = _d4_order(writes)
+    if t4 is not None:
+        out.append((t4.encode('utf-8'), frozenset([D4])))
+    return out
+
+
+def spool_results(writes: Sequence[Write], buff: int) -> List[Tuple[bytes, FrozenSet[str]]]:
+    """The bytes of the spooled file (freeze) after the writes, per defect assumption (D3: position after the
+    roll-over = number of characters; D4: direct writes after the roll-over overtake buffered ones)."""
+    proper = ''.join(t for t, _ in writes).encode('utf-8')
     buf = ''
     for i, (w, direct) in enumerate(writes):
         if not direct:
             buf += w
         if direct or len(buf) > buff:
+            rest_writes = list(writes[i:] if direct else writes[i + 1:])
             pre = buf.encode('utf-8')
             n = len(buf)
-            rest_writes = writes[i:] if direct else writes[i + 1:]
-            rest = ''.join(t for t, _ in rest_writes).encode('utf-8')
-            if rest == b'':
-                return pre
-            return pre[:n] + rest + pre[n + len(rest):]
-    return buf.encode('utf-8')
+            out = [(proper, _NONE)]
+            rest_variants = [(''.join(t for t, _ in rest_writes), _NONE)]
+            t4 = _d4_order(rest_writes)
+            if t4 is not None:
+                rest_variants.append((t4, frozenset([D4])))
+            for rest_text, tags in rest_variants:
+                rest = rest_text.encode('utf-8')
+                if tags:
+                    out.append((pre + rest, tags))
+                if rest and n != len(pre):
+                    out.append((pre[:n] + rest + pre[n + len(rest):], tags | {D3}))
+            return out
+    return [(proper, _NONE)]
 
 
 def concat_lines(parts: Sequence[Sequence[str]]) -> Tuple[str, ...]:
@@ -277,6 +308,9 @@ def _key(tags):
     return (len(tags), sorted(tags))
 
 
+_NONE = frozenset()
+
+
 class Closure:
     """value (tuple of chunks) -> smallest set of defect tags that predicts it."""
 
@@ -292,25 +326,12 @@ class Closure:
         elif _key(tags) < _key(cur):
             self.values[value] = tags
 
-    def add_readings(self, chunks: Tuple[str, ...], tags: FrozenSet[str], buff: int, file_backed_possible: bool,
-                     writes_list: Sequence[Sequence[Tuple[str, bool]]]):
-        """Everything a consumer may see of a text that was produced as ``chunks``."""
-        text = ''.join(chunks)
+    def add_chunks(self, chunks: Tuple[str, ...], tags: FrozenSet[str], file_backed_possible: bool = True):
+        """A text produced as ``chunks`` and everything a later reader may make of it."""
         self.add(chunks, tags)
-        self._texts(text, tags, file_backed_possible)
-        # D3: the text went through the spooled file (freeze) in several writes
-        if not text.isascii():
-            for writes in writes_list:
-                b = spool_bytes(writes, buff)
-                if b != ''.join(t for t, _ in writes).encode('utf-8'):
-                    try:
-                        t3 = b.decode('utf-8')
-                    except UnicodeDecodeError:
-                        self.add(UNDECODABLE, tags | {D3})
-                        continue
-                    self._texts(t3, tags | {D3}, True)
+        self.add_text(''.join(chunks), tags, file_backed_possible)
 
-    def _texts(self, text: str, tags: FrozenSet[str], file_backed_possible: bool):
+    def add_text(self, text: str, tags: FrozenSet[str], file_backed_possible: bool = True):
         self.add(nl_split(text), tags)
         sl = sl_split(text)
         if sl != nl_split(text):
@@ -321,6 +342,20 @@ class Closure:
             sl2 = sl_split(t2)
             if sl2 != nl_split(t2):
                 self.add(sl2, tags | {D1, D2})
+
+    def add_bytes(self, results: Sequence[Tuple[bytes, FrozenSet[str]]], tags: FrozenSet[str], through=None):
+        """File contents (per defect assumption) that are read back as a text; ``through`` = a function from the
+        text to the chunks that are the value (a program that reads the file)."""
+        for b, t in results:
+            try:
+                text = b.decode('utf-8')
+            except UnicodeDecodeError:
+                self.add(UNDECODABLE, tags | t)
+                continue
+            if through is None:
+                self.add_text(text, tags | t)
+            else:
+                self.add_chunks(through(text), tags | t)
 
     def texts(self) -> Dict[str, FrozenSet[str]]:
         out: Dict[str, FrozenSet[str]] = {}
@@ -334,23 +369,36 @@ class Closure:
         return out
 
 
-_NONE = frozenset()
+FROM_LINES = ('identity', 'tcds', 'upper', 'lower', 'strip', 'replace')  # never cached by themselves: never spooled
 
 
 def normalise(node):
-    """The same tree with every sequence of transformers written as nested single transformations."""
+    """The same tree with every sequence of transformers written as nested single transformations (`identity`
+    inside a sequence contributes nothing)."""
     kind = node[0]
     if kind == 'tr':
         inner = normalise(node[2])
         tr = node[1]
         if tr[0] == 'seq':
-            for t in tr[1:]:
-                inner = normalise(['tr', t, inner])
+            flat = _flat_seq(tr)
+            for t in flat:
+                if t[0] == 'identity':
+                    continue
+                inner = ['tr', t, inner]
             return inner
         return ['tr', tr, inner]
     if kind == 'concat':
         return ['concat', [normalise(p) for p in node[1]]]
     return node
+
+
+def _flat_seq(tr) -> List:
+    if tr[0] != 'seq':
+        return [tr]
+    out = []
+    for t in tr[1:]:
+        out += _flat_seq(t)
+    return out
 
 
 def writes_directly(node) -> bool:
@@ -359,9 +407,11 @@ def writes_directly(node) -> bool:
     if kind == 'prog':
         return node[2] == 'out' or bool(node[3])
     if kind == 'tr':
-        return node[1][0] == 'run'
-    if kind == 'concat':
-        return any(writes_directly(p) for p in node[1])
+        if node[1][0] == 'run':
+            return True
+        if node[1][0] == 'nums' and not any(x is not None and x < 0 for r in node[1][1] for x in r):
+            # ranges that together select every line give the source itself
+            return writes_directly(node[2])
     return False
 
 
@@ -380,18 +430,30 @@ def _flat_parts(node) -> List:
     return [node]
 
 
-def _combos(cl: Closure, part_nodes, buff: int, limit: int, cap: int = 400):
-    """Combinations of the values of the parts: list of (tuple of chunk tuples, tags)."""
-    combos = [((), _NONE)]
+def _write_combos(cl: Closure, part_nodes, buff: int, limit: int, cap: int = 300):
+    """Combinations of the values of the parts and of the ways they are written to a file:
+    list of (tuple of chunk tuples, tuple of writes, tags)."""
+    combos = [((), (), _NONE)]
     for p in part_nodes:
         pc = _closure(p, buff, limit)
+        const = p[0] in ('str', 'lit')
+        direct = writes_directly(p)
         nxt = []
-        for vs, tags in combos:
+        for vs, ws, tags in combos:
             for v, t in pc.values.items():
                 if v is UNDECODABLE:
                     cl.add(UNDECODABLE, tags | t)
                     continue
-                nxt.append((vs + (v,), tags | t))
+                text = ''.join(v)
+                alts = []
+                if const:
+                    alts.append(((text, False),) if text else ())
+                else:
+                    alts.append(tuple((c, False) for c in v))
+                    if direct and text:
+                        alts.append(((text, True),))
+                for a in alts:
+                    nxt.append((vs + (v,), ws + a, tags | t))
                 if len(nxt) > cap:
                     break
             if len(nxt) > cap:
@@ -400,31 +462,19 @@ def _combos(cl: Closure, part_nodes, buff: int, limit: int, cap: int = 400):
     return combos
 
 
-def _d4_texts(cl: Closure, part_nodes, buff: int, limit: int):
-    """D4: the text in the file when the parts are written one after the other: [(text, tags)] (only the texts
-    that differ from the proper order)."""
-    direct = [writes_directly(p) for p in part_nodes]
-    if not any(direct) or all(direct):
-        return []
-    out = []
-    for vs, tags in _combos(cl, part_nodes, buff, limit):
-        texts = [''.join(v) for v in vs]
-        first = ''.join(t for t, d in zip(texts, direct) if d)
-        then = ''.join(t for t, d in zip(texts, direct) if not d)
-        if len(then.encode('utf-8')) < IO_BUFFER and first + then != ''.join(texts):
-            out.append((first + then, tags | {D4}))
-    return out
-
-
 def _closure(node, buff: int, limit: int) -> Closure:
     kind = node[0]
     cl = Closure(limit)
     if kind in ('str', 'lit'):
-        cl.add_readings(nl_split(node[1]), _NONE, buff, False, [])
-        # the text as a file: written in one piece, read back like any file
-        cl._texts(node[1], _NONE, True)
-    elif kind in ('file', 'prog'):
-        cl.add_readings(nl_split(node[1]), _NONE, buff, True, [])
+        cl.add_chunks(nl_split(node[1]), _NONE, False)
+        cl.add_text(node[1], _NONE, True)  # the text as a file: written in one piece, read back like any file
+    elif kind == 'file':
+        cl.add_text(node[1], _NONE)
+    elif kind == 'prog':
+        cl.add_text(node[1], _NONE)
+        # frozen after the output was cached in a file: the cached file is copied line by line to the spool
+        for t, tags in ((node[1], _NONE), (universal(node[1]), frozenset([D2]))):
+            cl.add_bytes(spool_results([(c, False) for c in nl_split(t)], buff), tags)
     elif kind == 'tr':
         tr = node[1]
         inner = _closure(node[2], buff, limit)
@@ -433,36 +483,27 @@ def _closure(node, buff: int, limit: int) -> Closure:
                 cl.add(UNDECODABLE, tags)
                 continue
             w = apply(tr, v)
-            cl.add_readings(w, tags, buff, True, [[(c, False) for c in w]])
+            cl.add_chunks(w, tags)
+            if tr[0] not in FROM_LINES:
+                for t, tg in ((''.join(w), tags), (universal(''.join(w)), tags | {D2})):
+                    for chunks in (w,) if tg is tags else (nl_split(t),):
+                        cl.add_bytes(spool_results([(c, False) for c in chunks], buff), tg)
         if tr[0] == 'run' and tr[2]:
             # the program reads the file made of its own stdin followed by the model
-            for text, tags in _d4_texts(cl, [['str', tr[2]]] + _flat_parts(node[2]), buff, limit):
-                cl.add_readings(apply(['run', tr[1], None], nl_split(text)), tags, buff, True, [])
+            def through(text):
+                return apply(['run', tr[1], None], nl_split(text))
+
+            for vs, ws, tags in _write_combos(cl, [['str', tr[2]]] + _flat_parts(node[2]), buff, limit):
+                cl.add_bytes([r for r in file_results(ws) if r[1]], tags, through)
     elif kind == 'concat':
-        part_nodes = node[1]
-        direct = [writes_directly(p) for p in part_nodes]
-        const = [p[0] in ('str', 'lit') for p in part_nodes]
-        for vs, tags in _combos(cl, part_nodes, buff, limit):
+        for vs, ws, tags in _write_combos(cl, _flat_parts(node), buff, limit):
             walked = concat_lines(vs)
-            flat = tuple(c for v in vs for c in v)
-            # the writes that make up the text when it is spooled: a constant string is one write, a program writes
-            # its part itself, everything else is written line by line
-            writes = []
-            for v, d, c in zip(vs, direct, const):
-                if d or c:
-                    if v:
-                        writes.append((''.join(v), d))
-                else:
-                    writes.extend((x, False) for x in v)
-            writes_nodirect = [(t, False) for t, _ in writes]
-            if ''.join(walked) != ''.join(flat):
-                tags_w = tags | {D1}  # only chunkings that D1 produces make the walk lose or reorder text
-            else:
-                tags_w = tags
-            cl.add_readings(walked, tags_w, buff, True, [writes, writes_nodirect])
-            cl.add_readings(nl_split(''.join(flat)), tags, buff, True, [writes, writes_nodirect])
-        for text, tags in _d4_texts(cl, _flat_parts(node), buff, limit):
-            cl.add_readings(nl_split(text), tags, buff, True, [])
+            flat = ''.join(c for v in vs for c in v)
+            # only chunkings that D1 produces make the walk over the lines lose or reorder text
+            cl.add_chunks(walked, tags | {D1} if ''.join(walked) != flat else tags)
+            cl.add_text(flat, tags)
+            cl.add_bytes(file_results(ws), tags)
+            cl.add_bytes(spool_results(ws, buff), tags)
     else:
         raise ValueError('source %r' % (node,))
     return cl
@@ -503,3 +544,57 @@ def known_id(tags: FrozenSet[str]) -> str:
     if D2 in tags:
         return 'KF-C14-2'
     return 'KF-C14-1'
+
+
+# ---- matchers of the CLI layer -------------------------------------------------------------------------------------
+#   ['eq', SRC] equals SRC | ['cmp', TEXT] a program that compares its stdin with TEXT byte by byte | ['nl', N]
+#   num-lines == N | ['every-le', N] every line : line-num <= N | ['any', S] any line : contents equals S | ['empty']
+def matcher_value(m, chunks: Sequence[str], expected_text: Optional[str] = None) -> bool:
+    kind = m[0]
+    if kind == 'eq':
+        return ''.join(chunks) == expected_text
+    if kind == 'cmp':
+        return ''.join(chunks) == m[1]
+    if kind == 'nl':
+        return len(chunks) == m[1]
+    if kind == 'every-le':
+        return len(chunks) <= m[1]
+    if kind == 'any':
+        return any(_content(c) == m[1] for c in chunks)
+    if kind == 'empty':
+        return ''.join(chunks) == ''
+    raise ValueError('matcher %r' % (m,))
+
+
+def ref_verdict(actual_node, m) -> bool:
+    chunks = nl_split(ref_text(actual_node))
+    return matcher_value(m, chunks, ref_text(m[1]) if m[0] == 'eq' else None)
+
+
+def defect_flips_verdict(actual_node, m, buff: int) -> Optional[FrozenSet[str]]:
+    """The smallest set of modelled defects under which the matcher's verdict differs from the reference verdict
+    (None: no modelled defect changes it).  'undecodable' in the result = reading a text raises."""
+    ref = ref_verdict(actual_node, m)
+    acl = closure(actual_node, buff)
+    best = None
+
+    def consider(tags):
+        nonlocal best
+        if tags and (best is None or _key(tags) < _key(best)):
+            best = tags
+
+    exp = {None: _NONE}
+    if m[0] == 'eq':
+        ecl = closure(m[1], buff)
+        exp = ecl.texts()
+        if UNDECODABLE in ecl.values:
+            consider(ecl.values[UNDECODABLE])
+    if UNDECODABLE in acl.values:
+        consider(acl.values[UNDECODABLE])
+    for v, tags in acl.values.items():
+        if v is UNDECODABLE:
+            continue
+        for et, etags in exp.items():
+            if matcher_value(m, v, et) != ref:
+                consider(tags | etags)
+    return best
